@@ -11,7 +11,7 @@ META = {
             "(tombstone older than the changelog window) over model time with scaled constants against the lifecycle as stated: "
             "recycled entries invisible to normal search and visible to recycle-bin search; recycled -> tombstone only after the "
             "retention period, tombstone -> gone only after the changelog window, tombstones never come back; a successful revive "
-            "returns the entry, its cascade-deleted dependents and its memberships of groups that stayed live; an unobstructed revive "
+            "returns EVERY entry of the (possibly multi-entry) revive operation, its cascade-deleted dependents and its memberships of groups that stayed live; an unobstructed revive "
             "succeeds. Sampled model behaviours are replayed on a real server at the corresponding simulated times (real constants), "
             "seeded random delete/revive/purge histories jump around both windows; every commit is judged by the TLA+ action "
             "properties, the history summary (deletion / tombstone times, owed memberships, cascade sets) being derived from "
@@ -19,7 +19,7 @@ META = {
     "note": "retention constants are read from the build (RECYCLEBIN_MAX_AGE / CHANGELOG_MAX_AGE, 7 days each in non-test builds) "
             "and time is driven through the curtime argument; 'groups that still exist' = static groups live continuously since "
             "the deletion; internal identity for delete/revive/search (hidden-entry masking, not access control, is what is "
-            "observed); model bound 3 entries, time 0..7 (quick) / 0..10 (thorough)",
+            "observed); model bound 4 entries (two users sharing a group, a dependent), delete / revive over sets of 1..2 entries",
     "design_ref": "DESIGN.md section 6, C26",
     "technique": "TLA+ lifecycle automaton with timers model-checked by TLC; replay of model behaviours at simulated times and stateful trace validation of random histories on the real server",
 }
@@ -33,10 +33,19 @@ def run(tier, replay):
     res, cex, beh = dc.mc("KRecycleMC", "KRecycleMC" if quick else "KRecycleMCt", PID, 1, 3000, kinds=(1, 2, 3, 4, 5, 6))
     parts = []
     replayed = 0
+    n_multi = 0
     if replay:
         parts.append(dc.hist_replay(f"{wd}/replay-obs.ndjson", replay))
     else:
-        hs = [dc.triples(t) for t in cex[:200]] + [dc.triples(t) for t in beh[:: max(1, len(beh) // (80 if quick else 800))]]
+        allb = [dc.triples(t) for t in beh]
+        multi = [h for h in allb if dc.multi_revive(h)]
+        if not multi:
+            lib.tool_error("KRecycleMC printed no behaviour with a multi-entry revive (vacuous for set revives)")
+        rest = [h for h in allb if not dc.multi_revive(h)]
+        # behaviours that revive several entries with ONE operation first, then a sample of the others
+        hs = [dc.triples(t) for t in cex[:200]] + multi[:: max(1, len(multi) // (50 if quick else 500))] + \
+             rest[:: max(1, len(rest) // (40 if quick else 400))]
+        n_multi = len(multi)
         replayed = len(hs)
         dc.write_replay(f"{wd}/model-histories.ndjson", [dc.ops_c26(h, dc.RMAX // 2) for h in hs])
         parts.append(dc.hist_replay(f"{wd}/obs-model.ndjson", f"{wd}/model-histories.ndjson"))
@@ -60,7 +69,7 @@ def run(tier, replay):
     c = dc.constants_of(lines)
     R.coverage = {
         "states": res["distinct"], "transitions": res["generated"],
-        "model_counterexamples": len(cex), "model_behaviours_sampled": len(beh), "model_histories_replayed": replayed,
+        "model_counterexamples": len(cex), "model_behaviours_sampled": len(beh), "model_histories_replayed": replayed, "model_behaviours_with_multi_entry_revive": n_multi,
         "traces_validated_against_impl": sum(1 for l in lines if '"a":"reset"' in l),
         "observed_states_judged": len(lines), "liveness_transitions_observed": trans,
         "build_constants": c,
